@@ -15,7 +15,8 @@ ASSUMPTIONS = [
 
 
 def seg_param(draw, p, positive):
-    elem = st.sampled_from([0.25, 1.0, 4.0, 9.0]) if positive else st.sampled_from([-3.0, 0.0, 2.5, 10.0])
+    # (variance 0 is a consistent request: a flat-lined stretch at the mean)
+    elem = st.sampled_from([0.25, 1.0, 4.0, 9.0, 0.0]) if positive else st.sampled_from([-3.0, 0.0, 2.5, 10.0])
     elem = st.one_of(elem, st.floats(0.01, 20, allow_nan=False) if positive else st.floats(-20, 20, allow_nan=False))
     return [draw(elem) for _ in range(p)]
 
@@ -93,7 +94,7 @@ def anomalous_cases(draw, tier):
 def alternating_cases(draw, tier):
     return {"fn": "alternating", "n_segments": draw(st.integers(1, 6)), "segment_length": draw(st.integers(1, 12)),
             "p": draw(st.integers(1, 5)), "mean": draw(st.one_of(st.sampled_from([0.0, 10.0, -3.0]), st.floats(-20, 20))),
-            "variance": draw(st.one_of(st.sampled_from([1.0, 4.0, 0.25]), st.floats(0.01, 20))),
+            "variance": draw(st.one_of(st.sampled_from([1.0, 4.0, 0.25, 0.0]), st.floats(0.01, 20))),
             "affected_proportion": draw(st.sampled_from([1.0, 0.5, 0.0, 0.2, 0.34, 0.75])),
             "seed": draw(st.integers(0, 2 ** 31 - 1))}
 
